@@ -185,6 +185,30 @@ class ModuleRef:
         return f'<module {self._mod.name}>'
 
 
+class GenCM:
+    """Result of calling a @contextlib.contextmanager generator function: used by ``with``."""
+
+    def __init__(self, interp, func, args, kwargs):
+        self.interp, self.func, self.args, self.kwargs = interp, func, args, kwargs
+
+    def run(self, body):
+        it, f = self.interp, self.func
+        env = Env(f.module, parent=f.closure or None, cls=f.cls)
+        it.bind_args(f, f.node.args, self.args, self.kwargs, env)
+        env.vars['$cm_body'] = body
+        env.vars['$cm_yielded'] = [0]
+        it.call_depth += 1
+        try:
+            try:
+                it.exec_block(f.node.body, env)
+            except _Return:
+                pass
+        finally:
+            it.call_depth -= 1
+        if env.vars['$cm_yielded'][0] != 1:
+            raise Unsupported('contextmanager generator did not yield exactly once')
+
+
 class SuperProxy:
     def __init__(self, cls, obj):
         self.cls = cls
@@ -679,6 +703,8 @@ class Interp:
         if c is not None and c.mode == 'contract' and not getattr(c, '_verifying', False):
             return c.apply(self, f, args, kwargs)
         self._note_fuc(f)
+        if f.is_contextmanager:
+            return GenCM(self, f, list(args), dict(kwargs))
         for ev in f.events:
             core.ctx().event('warning', 'DeprecationWarning', ev[1])
         if self.call_depth > 200:
@@ -692,7 +718,7 @@ class Interp:
         try:
             if isinstance(node, ast.Lambda):
                 return self.eval(node.body, env)
-            if f.is_generator:
+            if f.is_generator and not f.is_contextmanager:
                 out = []
                 env.vars['$yield'] = out
                 try:
@@ -772,6 +798,11 @@ class Interp:
             return
         if isinstance(v, ast.Call) and _is_logging_call(v):
             return                       # A-LOG
+        if isinstance(v, ast.Yield) and self._cm_body(env) is not None:
+            body, counter = self._cm_body(env)
+            counter[0] += 1
+            body(self.eval(v.value, env) if v.value is not None else None)
+            return
         if isinstance(v, (ast.Yield, ast.YieldFrom)):
             out = self._yield_list(env)
             if isinstance(v, ast.Yield):
@@ -780,6 +811,16 @@ class Interp:
                 out.extend(self.iterate(self.eval(v.value, env)))
             return
         self.eval(v, env)
+
+    def _cm_body(self, env):
+        e = env
+        while e is not None:
+            if '$cm_body' in e.vars:
+                return e.vars['$cm_body'], e.vars['$cm_yielded']
+            if '$yield' in e.vars:
+                return None
+            e = e.parent
+        return None
 
     def _yield_list(self, env):
         e = env
@@ -948,6 +989,13 @@ class Interp:
             return
         item = items[i]
         cm = self.eval(item.context_expr, env)
+        if isinstance(cm, GenCM):
+            def cm_body(val):
+                if item.optional_vars is not None:
+                    self.assign(item.optional_vars, val, env)
+                self._with(items, i + 1, body, env)
+            cm.run(cm_body)
+            return
         enter = getattr(cm, '_cm_enter', None)
         if enter is None:
             if isinstance(cm, Obj):
@@ -1518,6 +1566,18 @@ class Interp:
             obj[idx] = v
         except REAL_EXC as ex:
             raise PyRaise(ExcObj(type(ex), ex.args))
+
+    def run_snippet(self, module_name, source, bindings=None):
+        """Execute harness code (not code under contract) in the scope of an emsarray module."""
+        mod = self.module(module_name)
+        env = Env(mod, parent=self._module_env(mod))
+        env.vars.update(bindings or {})
+        tree = ast.parse(source)
+        try:
+            self.exec_block(tree.body, env)
+        except _Return as r:
+            return r.value
+        return env.vars
 
     # ---------------------------------------------------------------- builtins
     def _make_builtins(self):
